@@ -269,6 +269,12 @@ class PathCtx:
 
     native = False
 
+    def track(self, container):
+        """a list/dict created by the input builder that the code under verification may mutate"""
+        from .values import interp
+        interp().declared_mutable[id(container)] = container
+        return container
+
     # ------------------------------------------------------------ obligations
     def side_condition(self, cond, what):
         """no-overflow side condition of an integer operation; discharged at the end of the
@@ -414,6 +420,9 @@ class NativeCtx:
 
     def cover(self):
         return None
+
+    def track(self, container):
+        return container
 
     def choose_int(self, x, what="shape", cap=0):
         return x
